@@ -6,6 +6,7 @@ import (
 )
 
 type Gen struct {
+	Posix        bool // string types may carry openconfig-extensions posix-patterns (load OCXText too)
 	TypeErrors   bool // also generate unknown and cyclic type references
 	grNames      []string
 	NoSubs       bool
@@ -217,6 +218,12 @@ func (g *Gen) typeRef(s *Scope) *TypeRef {
 		if k.Err == "" && k.Kind == "string" {
 			for q := g.pick(3); q > 0; q-- {
 				t.Patterns = append(t.Patterns, g.name("pat"))
+			}
+			if g.Posix && g.pick(3) == 0 {
+				for q := 1 + g.pick(2); q > 0; q-- {
+					t.Posix = append(t.Posix, "^"+g.name("px")+"$")
+				}
+				s.File.OCX = true
 			}
 		}
 	}
@@ -473,6 +480,15 @@ func (g *Gen) node(s *Scope, c ctx) *Node {
 	case "choice":
 		n.Body = sub()
 		g.fillScope(n.Body, ctx{inRPC: c.inRPC, inChoice: true, depth: c.depth + 1, inGroup: c.inGroup, pk: "choice"}, 3)
+		if g.pick(4) == 0 {
+			// a default case, named among the members written here
+			for _, it := range n.Body.Items {
+				if it.Node != nil {
+					n.Default = []string{it.Node.Name}
+					break
+				}
+			}
+		}
 	case "anyxml":
 	case "notification":
 		n.Body = sub()
